@@ -3,7 +3,7 @@
    Spec.v (JsonStd) is the reference; Model.v mirrors /repo/codec after the
    repairs F09-1 (readFloat counters) and F09-2 (lone surrogates). *)
 From Coq Require Import List NArith ZArith Bool.
-From Verif Require Import Gen.Consts Base.Outcome C09.Spec C09.Model C09.ProofsStr C09.ProofsNum C09.ProofsUint C09.ProofsQuote C09.ProofsFast C09.ProofsNumAll C09.ProofsParse.
+From Verif Require Import Gen.Consts Base.Outcome C09.Spec C09.Model C09.ProofsStr C09.ProofsNum C09.ProofsUint C09.ProofsQuote C09.ProofsFast C09.ProofsNumAll C09.ProofsParse C09.ProofsGrammar.
 Import ListNotations.
 
 (* readFloat on the text of ANY literal of the JSON number grammar, for each of the
@@ -133,6 +133,15 @@ Theorem C09_quote_fn : forall (h : bool) (s : list N),
 Proof. exact quote_unescape. Qed.
 Print Assumptions C09_quote_fn.
 
+(* json.base.go jsonIsNumberLiteral (the guard DecodeNaked applies before it reads a
+   quoted map key as a number under MapKeyAsString, fix F09-4) accepts EXACTLY the
+   texts of the RFC 8259 number grammar (Spec: numlit, wf_numlit, render_num) *)
+Theorem C09_number_literal : forall (s : list N),
+  jsonIsNumberLiteral s = true <->
+  exists (n : numlit) (upper : bool), wf_numlit n = true /\ s = render_num upper n.
+Proof. exact number_literal_iff. Qed.
+Print Assumptions C09_number_literal.
+
 (* non-vacuity *)
 Example C09_readfloat_nonvacuous :
   (* 0.<250 zeros>1 : the F09-1 witness, now the slow path; 1234.5e-3 exact *)
@@ -169,3 +178,10 @@ Example C09_num_nonvacuous :
   /\ parseFloat64_reader 4503599627370495 37 true = FFail
   /\ rok (readFloat [52;53;48;51;53;57;57;54;50;55;51;55;48;52;57;54]%N fi64) = false.
 Proof. vm_compute. repeat apply conj; reflexivity. Qed.
+
+Example C09_number_literal_nonvacuous :
+  (* -0.5e+10 is accepted; - . e5 1. .5 1e 1e+ 007 +5 are not *)
+  jsonIsNumberLiteral [45;48;46;53;101;43;49;48]%N = true
+  /\ forallb (fun s => negb (jsonIsNumberLiteral s))
+       [[45]; [46]; [101;53]; [49;46]; [46;53]; [49;101]; [49;101;43]; [48;48;55]; [43;53]; []]%N = true.
+Proof. vm_compute. split; reflexivity. Qed.
